@@ -28,8 +28,8 @@ static int run_verify_tool(const char *path, char *out, size_t outsz)
 	return pclose(p);
 }
 
-enum { M_ITER, M_GET, M_PREFIX, M_RANGE, M_SEEK, M_N };
-static const char *MODE[] = {"iterate", "get", "get_prefix", "get_range", "iter+seek"};
+enum { M_ITER, M_GET, M_PREFIX, M_RANGE, M_SEEK, M_SEEKBACK, M_N };
+static const char *MODE[] = {"iterate", "get", "get_prefix", "get_range", "iter+seek", "iter+seek-past+seek-back"};
 
 /* returns number of entries the child emitted; *status = wait status */
 static long reader_child(const char *path, int mode, const model_t *m, size_t start, size_t stop_key_idx, int *status)
@@ -61,6 +61,11 @@ static long reader_child(const char *path, int mode, const model_t *m, size_t st
 		case M_GET: it = mtbl_source_get(s, a->k.p, a->k.n); break;
 		case M_PREFIX: it = mtbl_source_get_prefix(s, a->k.p, a->k.n); break;
 		case M_RANGE: it = mtbl_source_get_range(s, a->k.p, a->k.n, b->k.p, b->k.n); break;
+		case M_SEEKBACK:   /* position the iterator in a later block first (the damaged block is jumped over, never loaded), then seek back into it */
+			it = mtbl_source_iter(s);
+			if (mtbl_iter_seek(it, b->k.p, b->k.n) != mtbl_res_success) _exit(4);
+			if (mtbl_iter_seek(it, a->k.p, a->k.n) != mtbl_res_success) _exit(4);
+			break;
 		default: it = mtbl_source_iter(s); if (mtbl_iter_seek(it, a->k.p, a->k.n) != mtbl_res_success) _exit(4); break;
 		}
 		const uint8_t *k, *v; size_t lk, lv;
@@ -120,6 +125,9 @@ static void observe_fault(const char *path, int fd, const model_t *m, const regi
 		case M_ITER: start = 0; stop = 0; allowed = rg->is_index ? 0 : fd_first; break;
 		case M_GET: case M_PREFIX: start = in_block; stop = in_block; allowed = 0; break;
 		case M_RANGE: start = fd_first ? fd_first - 1 - rndn(r, fd_first > 3 ? 3 : fd_first) : 0; stop = in_block; allowed = rg->is_index ? 0 : fd_first - start; break;
+		case M_SEEKBACK: start = in_block; stop = rg->is_index ? in_block : rg->first_entry + rg->n_entries; allowed = 0;
+			if (stop >= m->n) { stop = in_block; mode = M_SEEK; }        /* the damaged block is the last one: nothing lies past it */
+			break;
 		default: start = in_block; stop = in_block; allowed = 0; break;
 		}
 		if (rg->is_index) allowed = 0;
